@@ -12,6 +12,7 @@ from props import C03
 from vlib import fuzz as FZ, gen_deleg, gen_envelope as GE, gen_json as G, gen_metadata as GM, gen_mutate as MU, \
     gen_pyvalues as GP, keys, ref_openpgp, ref_schema, ref_verify as RV
 from vlib.ref_canon import canon
+from vlib import cfgunit as _cfgunit
 from vlib.runner import REPO, Unit, Violation
 
 PROPERTY = "C13"
@@ -356,4 +357,6 @@ UNITS = [
          doc="verify_signable: SignatureError when too few valid signatures on well-formed arguments"),
     Unit("fuzz", check_fuzz, enumerate=lambda tier: FZ.campaigns(tier, "C13"), shards_quick=4, shards_thorough=16,
          doc="atheris (libFuzzer) coverage-guided campaign: bytes -> JSON -> verifiers, same oracle in-target"),
+    _cfgunit.unit_under_config(PROPERTY, 'mutations', exclude=()),
+    _cfgunit.unit_under_config(PROPERTY, 'positions', exclude=()),
 ]
